@@ -117,7 +117,6 @@ func (g *gen) columnDef(name string, earlier []string, pkAllowed *bool, alter bo
 	out := tk(g.id(name))
 	ty := g.typeName()
 	out = append(out, ty...)
-	self := &scope{srcs: []src{{qual: "", cols: append(append([]string{}, earlier...), name)}}}
 	n := rapid.SampledFrom([]int{0, 0, 1, 1, 1, 2, 3}).Draw(g.t, "ncons")
 	seen := map[int]bool{}
 	for i := 0; i < n; i++ {
@@ -218,7 +217,6 @@ func (g *gen) columnDef(name string, earlier []string, pkAllowed *bool, alter bo
 			}
 		}
 	}
-	_ = self
 	return out
 }
 
